@@ -62,7 +62,17 @@ def main():
             out["suite_tail"] = tail[-1] if tail else ""
             failed = [l for l in tail if l.startswith("FAILED") or l.startswith("ERROR")]
             out["suite_failures"] = failed
-            out["suite_ok"] = all("test_version" in l for l in failed) and bool(re.search(r"\d+ passed", out["suite_tail"]))
+            # a failure other than test_version is re-run on its own (with the change applied): the suite has
+            # load-sensitive tests (hypothesis deadlines, statistical initialiser tests); it counts only if it fails again
+            rerun = {}
+            for l in failed:
+                if "test_version" in l:
+                    continue
+                node = l.split()[1]
+                rr = sh(f"{PY} -m pytest -q -p no:cacheprovider --timeout=900 '{node}' 2>&1 | tail -1", cwd=wt, env=env, timeout=1800)
+                rerun[node] = rr.stdout.strip()
+            out["suite_reruns"] = rerun
+            out["suite_ok"] = all(("passed" in v and "failed" not in v) for v in rerun.values()) and bool(re.search(r"\d+ passed", out["suite_tail"]))
         # the patch as it applies to the current HEAD
         patch_now = sh("git diff", cwd=wt).stdout
     finally:
